@@ -25,6 +25,11 @@ theorem firstTok_blank_tok {t s : Str} (ht : IsTok t) : firstTok (' ' :: (t ++ '
     splitWs_tok_ws ht isWs_space]
   rfl
 
+theorem firstTok_tok {t s : Str} (ht : IsTok t) : firstTok (t ++ ' ' :: s) = some t := by
+  unfold firstTok
+  rw [splitWs_tok_ws ht isWs_space]
+  rfl
+
 theorem firstTok_blank_tok_end {t : Str} (ht : IsTok t) : firstTok (' ' :: t) = some t := by
   unfold firstTok
   rw [show (' ' :: t) = [' '] ++ t from rfl, splitWs_allWs_append AllWs_one, splitWs_tok_end ht]
@@ -142,7 +147,7 @@ theorem xh_H0c (ci cj : Char) (i j : Nat) (hci : digit1 ci = some i) (hcj : digi
   rw [strip_cons_nonblank _ (by decide)]
   simp only [hn, isPrefixOf, kA, kH0, List.head?_cons, List.take, List.length_cons, List.length_nil,
     List.drop_succ_cons, List.drop_zero]
-  rw [firstTok_blank_tok (IsTok_g8 v)]
+  rw [firstTok_tok (IsTok_g8 v)]
   simp [parseDec_g8, hci, hcj, hi, hj]
 
 theorem xh_H0 (i j : Nat) (hi : 1 ≤ i ∧ i ≤ 3) (hj : 1 ≤ j ∧ j ≤ 3) (v : Rat) (rest : List Str) (h : XHdr)
@@ -159,7 +164,93 @@ theorem xh_H0 (i j : Nat) (hi : 1 ≤ i ∧ i ≤ 3) (hj : 1 ≤ j ∧ j ≤ 3) 
   obtain ⟨ci, e1, hci⟩ := hd i hi
   obtain ⟨cj, e2, hcj⟩ := hd j hj
   rw [e1, e2, lH0, lH0e, lHA]
-  simp only [List.cons_append, List.nil_append, List.append_assoc]
+  simp only [List.cons_append, List.nil_append]
   exact xh_H0c ci cj i j hci hcj hi hj v rest h hn
+
+theorem xh_novel (rest : List Str) (h : XHdr) (hn : h.n.isNone = false) :
+    xcfgHeader (".NO_VELOCITY.".toList :: rest) h = xcfgHeader rest { h with noVel := true } := by
+  rw [xcfgHeader_cons, lNoVel]
+  rw [strip_cons_nonblank _ (by decide)]
+  simp [hn, isPrefixOf, kA, kH0, kNoVel]
+
+theorem xh_ec (k : Nat) (rest : List Str) (h : XHdr) (hn : h.n.isNone = false) :
+    xcfgHeader (("entry_count = ".toList ++ natDigits k) :: rest) h =
+      xcfgHeader rest { h with entryCount := some (k : Int) } := by
+  rw [xcfgHeader_cons, lEcEq]
+  simp only [List.cons_append, List.nil_append]
+  rw [strip_cons_nonblank _ (by decide)]
+  simp only [hn, isPrefixOf, kA, kH0, kNoVel, kEc, List.head?_cons, List.take, List.length_cons, List.length_nil,
+    List.drop_succ_cons, List.drop_zero]
+  rw [firstTok_blank_tok_end (IsTok_natDigits k)]
+  simp [parseInt_natDigits]
+
+theorem xh_blank (rest : List Str) (h : XHdr) : xcfgHeader ([] :: rest) h = xcfgHeader rest h := by
+  rw [xcfgHeader_cons]
+  simp [strip, lstrip, rstrip]
+
+def kAux : Str := ['a', 'u', 'x', 'i', 'l', 'i', 'a', 'r', 'y', '[']
+
+theorem auxMatch_eq (line : Str) : auxMatch line =
+    if !isPrefixOf kAux line then none else
+    if ((line.drop 10).takeWhile isDigit).isEmpty || !isPrefixOf [']', ' ', '='] ((line.drop 10).dropWhile isDigit) then none
+    else some (numOf ((line.drop 10).takeWhile isDigit), ((line.drop 10).dropWhile isDigit).drop 3) := rfl
+
+theorem auxMatch_line (i : Nat) (nm : Str) :
+    auxMatch ("auxiliary[".toList ++ natDigits i ++ "] = ".toList ++ nm ++ " [au]".toList) = some (i, ' ' :: (nm ++ " [au]".toList)) := by
+  rw [auxMatch_eq, lAux, lAuxE]
+  simp only [List.cons_append, List.nil_append, List.append_assoc, List.drop_succ_cons, List.drop_zero]
+  have h := takeWhile_digits (natDigits i) (']' :: ' ' :: '=' :: ' ' :: (nm ++ " [au]".toList)) (allDigits_natDigits i)
+    (by simp [isDigit])
+  rw [h.1, h.2]
+  simp [isPrefixOf, kAux, isEmpty_false_of_ne (natDigits_ne_nil i), numOf_natDigits]
+
+theorem xh_aux (i : Nat) (nm : Str) (hnm : IsTok nm) (rest : List Str) (h : XHdr) (hn : h.n.isNone = false) :
+    xcfgHeader (("auxiliary[".toList ++ natDigits i ++ "] = ".toList ++ nm ++ " [au]".toList) :: rest) h =
+      xcfgHeader rest { h with aux := (h.aux.filter (fun p => p.1 != i)) ++ [(i, nm)] } := by
+  have hft : firstTok (' ' :: (nm ++ " [au]".toList)) = some nm := by rw [lAu]; exact firstTok_blank_tok hnm
+  rw [xcfgHeader_cons, auxMatch_line]
+  simp only [hft]
+  rw [lAux]
+  simp only [List.cons_append, List.nil_append, List.append_assoc]
+  rw [strip_cons_nonblank _ (by decide)]
+  simp [hn, isPrefixOf, kA, kH0, kNoVel, kEc]
+
+/-- a line that starts with a digit or a minus sign ends the header (`break`; the line is consumed) -/
+theorem xh_break (c : Char) (cs : Str) (hc : isDigit c = true ∨ c = '-') (rest : List Str) (h : XHdr)
+    (hn : h.n.isNone = false) : xcfgHeader ((c :: cs) :: rest) h = .ok (h, rest) := by
+  have hws : isWs c = false := by
+    rcases hc with hc | rfl
+    · exact isWs_of_isDigit hc
+    · decide
+  have hne : ∀ k : Char, isDigit k = false → k ≠ '-' → c ≠ k := by
+    intro k hk hk2 e; subst e
+    rcases hc with hc | hc
+    · rw [hk] at hc; cases hc
+    · exact hk2 hc
+  have h1 := hne '#' (by decide) (by decide)
+  have h2 := hne 'A' (by decide) (by decide)
+  have h3 := hne 'H' (by decide) (by decide)
+  have h4 := hne '.' (by decide) (by decide)
+  have h5 := hne 'e' (by decide) (by decide)
+  have h6 := hne 'a' (by decide) (by decide)
+  rw [xcfgHeader_cons, auxMatch_eq, strip_cons_nonblank _ hws]
+  simp [hn, isPrefixOf, kA, kH0, kNoVel, kEc, kAux, h1, h2, h3, h4, h5, h6]
+
+theorem fmtFbody_head (p : Nat) (x : Rat) : ∃ c cs, fmtFbody p x = c :: cs ∧ (isDigit c = true ∨ c = '-') := by
+  unfold fmtFbody signStr fixedBody
+  obtain ⟨c, cs, hcs, hc⟩ := natDigits_head (scaledAbs p x / 10 ^ p)
+  by_cases hx : x < 0
+  · refine ⟨'-', _, ?_, Or.inr rfl⟩
+    simp only [hx, decide_true, if_true, List.singleton_append]
+  · refine ⟨c, cs ++ (if p = 0 then [] else '.' :: fixDigits p (scaledAbs p x)), ?_, Or.inl hc⟩
+    simp [hx, hcs]
+
+theorem fmtF_zero (p : Nat) (x : Rat) : fmtF 0 p x = fmtFbody p x := by simp [fmtF, padLeft]
+
+theorem xh_mass (m : Rat) (rest : List Str) (h : XHdr) (hn : h.n.isNone = false) :
+    xcfgHeader (fmtF 0 4 m :: rest) h = .ok (h, rest) := by
+  obtain ⟨c, cs, e, hc⟩ := fmtFbody_head 4 m
+  rw [fmtF_zero, e]
+  exact xh_break c cs hc rest h hn
 
 end DS.Formats
